@@ -12,6 +12,7 @@
     to the state it was called in (the forest only grows, see [gext]; the read offset does not move
     backwards; the scope stack is only pushed to).
 
+    (also: the pkgEnd stack is only pushed to, one consumed byte at least per push.)
     [Phi s]: pool size + 4 * bytes left.  The first pass pays for every object it creates with a
     byte it consumes, which bounds the pool size (no wrap of the uint32 object index). *)
 From Coq Require Import NArith Arith List Bool Lia.
@@ -66,15 +67,17 @@ Record Ext (s0 : pstate) (g0 : ghost) (s : pstate) (g : ghost) : Prop := mkExt {
   ex_g : gext g0 g;
   ex_len : r_len (p_r s) = r_len (p_r s0);
   ex_off : r_offset (p_r s0) <= r_offset (p_r s);
-  ex_scopes : exists extra, p_scopeStack s = extra ++ p_scopeStack s0
+  ex_scopes : exists extra, p_scopeStack s = extra ++ p_scopeStack s0;
+  ex_pk : (length (p_pkgEndStack s0) <= length (p_pkgEndStack s))%nat;
+  ex_paid : N.of_nat (length (p_pkgEndStack s)) + r_offset (p_r s0) <= N.of_nat (length (p_pkgEndStack s0)) + r_offset (p_r s)
 }.
 
 Lemma Ext_refl s g : Ext s g s g.
-Proof. constructor; [apply gext_refl|reflexivity|lia|exists []; reflexivity]. Qed.
+Proof. constructor; [apply gext_refl|reflexivity|lia|exists []; reflexivity|lia|lia]. Qed.
 
 Lemma Ext_trans s0 g0 s1 g1 s2 g2 : Ext s0 g0 s1 g1 -> Ext s1 g1 s2 g2 -> Ext s0 g0 s2 g2.
 Proof.
-  intros [A1 A2 A3 (e1 & A4)] [B1 B2 B3 (e2 & B4)]. constructor; [eapply gext_trans; eauto|congruence|lia|].
+  intros [A1 A2 A3 (e1 & A4) A5 A6] [B1 B2 B3 (e2 & B4) B5 B6]. constructor; [eapply gext_trans; eauto|congruence|lia| |lia|lia].
   exists (e2 ++ e1). rewrite B4, A4. apply app_assoc.
 Qed.
 
